@@ -247,9 +247,17 @@ impl<'a> Model<'a> {
         if let Some(spans) = self.expected_spans(w.kind, &w.target, w.first_invoke) {
             let exp: Vec<String> = spans.iter().map(|x| x.2.clone()).collect();
             if !same_order_modulo_overlap(&spans, &all) {
+                // a resource whose creation had returned and that no page shows is also a
+                // violation of the name map's "every later request observes it" (C10)
+                let missing = exp.iter().any(|e| !all.contains(e));
                 self.v(
                     "walk_mismatch",
-                    if w.kind == 2 { &["C13", "C11"] } else { &["C13"] },
+                    match (w.kind == 2, missing) {
+                        (true, true) => &["C13", "C11", "C10"],
+                        (true, false) => &["C13", "C11"],
+                        (false, true) => &["C13", "C10"],
+                        (false, false) => &["C13"],
+                    },
                     format!("walking list kind {} of {} with page_size {} yielded {:?}, expected {:?}", w.kind, w.target, w.size, all, exp),
                 );
             }
@@ -815,6 +823,7 @@ pub fn analyze(tr: &Trace) -> Report {
         idx: 0,
         drain_started: false,
         stuck_reported: false,
+        last_qp_idx: 0,
         token_format_ok: true,
     };
     // ids are known post-hoc: map them up front so that deliveries racing a publish resolve
